@@ -238,3 +238,10 @@ raw("FX-D44-library-call-inside-main-function", "C13", {
 raw("FX-D45-library-without-functions-or-registers", "C13", {
     "A": {"": HDR + "from library import cfg\ndef f(a):\n    db.Setting = a\nwhile True:\n    f(1)\n    f(2)\n    yield_()\n", "cfg": HDR + "d1.Setting = 5\nd2.On = 1\n"},
     "B": HDR + "d1.Setting = 5\nd2.On = 1\ndef f(a):\n    db.Setting = a\nwhile True:\n    f(1)\n    f(2)\n    yield_()\n", "opts": {}})
+_lib46 = HDR + "x = d0.Setting\ndef f():\n    global x\n    x += 1\n    d1.Setting = x\n"
+raw("FX-D46-register-numbers-depend-on-hash-seed", "C11", {"sources": {
+    "": HDR + "from library import alpha\nfrom library import beta\nfrom library import gamma\nwhile True:\n    alpha.f()\n    beta.f()\n    gamma.f()\n    yield_()\n",
+    "alpha": _lib46, "beta": _lib46, "gamma": _lib46},
+    "options": {"original_code_as_comment": False, "generated_comments": False, "inline_functions": True, "remove_labels": False, "append_version": True,
+                "compact": False, "tail_call_optimization": False, "use_push_pop_functions": False},
+    "history": None, "hash_seeds": [1, 2]})
